@@ -96,6 +96,12 @@ type caseD struct {
 	//   "inflight-call": the same with a slow call request handler (event, Timeout, OK);
 	// then the SAME service is served on a NEW connection object B.
 	Restart string `json:"restart,omitempty"`
+	// Window: the callbacks are queued, then Shutdown is called and HELD between its state change and
+	// nc.Close() (verif gate close-after-nil); the callbacks run in that window - Shutdown has begun,
+	// the connection is still open - and only then Shutdown goes on. Events are published as long as
+	// the connection is open. (ResetEvent is not used in these scripts: Service.Reset refuses once the
+	// state is not started.)
+	Window bool `json:"window,omitempty"`
 }
 
 // ---------- Go values <-> Coq terms ----------
@@ -789,7 +795,24 @@ var enqCh = make(chan struct{}, 1024)
 var enqWid string
 var enqMu sync.Mutex
 
+var winMu sync.Mutex
+var winOn bool
+var winReached, winRelease chan struct{}
+
 func init() {
+	verifhook.SetGate(func(pt string) {
+		if pt != "close-after-nil" {
+			return
+		}
+		winMu.Lock()
+		on, reached, rel := winOn, winReached, winRelease
+		winOn = false
+		winMu.Unlock()
+		if on {
+			close(reached)
+			<-rel
+		}
+	})
 	verifhook.SetNote(func(pt string, s string, n int) {
 		if pt == "request-done" {
 			select {
@@ -940,10 +963,11 @@ func runCase(d caseD) (term string, mutated bool, stale []string, hang error) {
 	release := make(chan struct{})
 	done := make(chan struct{})
 	par := d.Setup.Parallel
+	gateRunning := make(chan struct{})
 	// hold the group's worker until every callback is queued, in submission order
 	// (a Parallel handler has no worker group: its callbacks are submitted one after the other)
 	if !par {
-		s.WithGroup(wid, func(*res.Service) { <-release })
+		s.WithGroup(wid, func(*res.Service) { close(gateRunning); <-release })
 		if err := wait(enqCh, "gate enqueue"); err != nil {
 			hang = err
 		}
@@ -997,17 +1021,46 @@ func runCase(d caseD) (term string, mutated bool, stale []string, hang error) {
 			hang = err
 		}
 	}
+	window := d.Window && !par
+	stoppedW := make(chan struct{})
 	if !par {
 		s.WithGroup(wid, func(*res.Service) { close(done) })
+		var rel chan struct{}
+		if window {
+			// Shutdown begins (state = stopping, work queue cleared) and is held before nc.Close()
+			reached := make(chan struct{})
+			rel = make(chan struct{})
+			winMu.Lock()
+			winOn, winReached, winRelease = true, reached, rel
+			winMu.Unlock()
+			// the group's work must be IN FLIGHT (its first callback running), queued work is dropped
+			if err := wait(gateRunning, "gate callback start"); err != nil {
+				hang = err
+			}
+			go func() { s.Shutdown(); close(stoppedW) }()
+			if err := wait(reached, "shutdown reaching the gate"); err != nil {
+				hang = err
+			}
+		}
 		close(release)
 		if hang == nil {
 			if err := wait(done, "group completion"); err != nil {
 				hang = err
 			}
 		}
+		if window {
+			close(rel)
+			if hang == nil {
+				if err := wait(stoppedW, "held shutdown"); err != nil {
+					hang = err
+				}
+			}
+		}
 	}
 	if hang == nil {
-		s.Shutdown()
+		if !window {
+			s.Shutdown()
+		}
 		if err := wait(served, "shutdown"); err != nil {
 			hang = err
 		}
@@ -1430,6 +1483,9 @@ func main() {
 		if d.Setup.Parallel {
 			dist["parallel-handler"]++
 		}
+		if d.Window {
+			dist["shutdown-window"]++
+		}
 		if mutated {
 			impl = append(impl, ImplViolation{What: "event mutated after delivery: an *Event kept by a listener no longer shows what the listener was handed", Desc: d, Tags: []string{"event-mutated"}})
 			dist["event-mutated"]++
@@ -1752,6 +1808,48 @@ func main() {
 					}
 				}
 			}
+		}
+		// (l) callbacks in flight while Shutdown has begun but the connection is still open
+		noReset := func(d caseD) caseD {
+			for i := range d.Cbs {
+				for j := range d.Cbs[i].Script {
+					if d.Cbs[i].Script[j].Op == "reset" {
+						d.Cbs[i].Script[j] = actD{Op: "reaccess"}
+					}
+				}
+			}
+			return d
+		}
+		for i, op := range evOps {
+			for _, nl := range []int{0, 2} {
+				for k, ctx := range []string{"call", "with"} {
+					mode := []string{"direct", "pattern", "mount", "wild", "mountpat", "root"}[(i+nl+k)%6]
+					sd := setupD{Mode: mode, Type: "unset", Apply: allApply((i+k)%2 == 0), Steps: g.steps(mode, nl)}
+					acts := []actD{g.withApply(g.baseAction(op), sd, "ok"), g.baseAction("reaccess")}
+					if ctx == "call" {
+						acts = append(acts, actD{Op: "timeout", Ms: 9}, g.withApply(g.baseAction(evOps[(i+2)%6]), sd, "ok"), actD{Op: "reply"})
+					}
+					d := single(sd, ctx, acts...)
+					d.Window = true
+					add("shutdown-window", d)
+				}
+			}
+		}
+		nw := 40
+		if o.Tier == "thorough" {
+			nw = 600
+		}
+		for i := 0; i < nw; i++ {
+			d := g.randomCase()
+			if d.Setup.Parallel {
+				continue
+			}
+			if d.Setup.React != nil && d.Setup.React.Act.Op == "reset" {
+				d.Setup.React = nil
+			}
+			d = noReset(d)
+			d.Window = true
+			add("shutdown-window", d)
 		}
 		// (d) random groups
 		n := 600
